@@ -45,6 +45,8 @@ type jCase struct {
 	Port     uint16       `json:"port,omitempty"`
 	MAC      [6]byte      `json:"mac"`
 	N        [4]uint8     `json:"n"`
+	InUTC    bool         `json:"in_utc,omitempty"` // DateTime: the value is held in UTC although the process zone is another one
+	Later    bool         `json:"later,omitempty"`  // DateTime: for a civil time that occurs twice take the later occurrence
 }
 
 func try(f func()) (p any) {
@@ -175,7 +177,13 @@ func decide(c jCase) *rp.Fail {
 		case "DateTime":
 			v := types.DateTime{}
 			if c.A.Y != 0 {
-				v = types.DateTime(time.Date(c.A.Y, time.Month(c.A.M), c.A.D, c.A.H, c.A.Mi, c.A.S, 0, time.Local))
+				t := time.Date(c.A.Y, time.Month(c.A.M), c.A.D, c.A.H, c.A.Mi, c.A.S, 0, time.Local)
+				if c.InUTC {
+					t = time.Date(c.A.Y, time.Month(c.A.M), c.A.D, c.A.H, c.A.Mi, c.A.S, 0, time.UTC)
+				} else if other, ok := otherOccurrence(t); ok && c.Later && other.After(t) {
+					t = other
+				}
+				v = types.DateTime(t)
 			}
 			var got types.DateTime
 			js, f := roundtrip("types.DateTime", v, &got)
@@ -186,9 +194,16 @@ func decide(c jCase) *rp.Fail {
 				fail = f
 				return
 			}
+			if c.InUTC {
+				// the text carries 'UTC': the decoded value must be the same instant
+				if c.A.Y != 0 && !time.Time(got).Equal(time.Time(v)) {
+					fail = rp.Failf("types.DateTime/roundtrip-instant", "zone %s: %s (a UTC value) decoded to another instant (%v vs %v)", c.Zone, js, time.Time(got).UTC(), time.Time(v).UTC())
+				}
+				return
+			}
 			if api.DateTimeText(got) != api.DateTimeText(v) {
 				fail = rp.Failf("types.DateTime/roundtrip", "zone %s: %s decoded as %q", c.Zone, js, api.DateTimeText(got))
-			} else if c.A.Y != 0 && unambiguous(c) && !time.Time(got).Equal(time.Time(v)) {
+			} else if c.A.Y != 0 && disambiguated(time.Time(v)) && !time.Time(got).Equal(time.Time(v)) {
 				fail = rp.Failf("types.DateTime/roundtrip-instant", "zone %s: %s decoded to another instant (%v vs %v)", c.Zone, js, time.Time(got).UTC(), time.Time(v).UTC())
 			}
 		case "HHmm":
@@ -367,18 +382,32 @@ func decide(c jCase) *rp.Fail {
 	return fail
 }
 
-func unambiguous(c jCase) bool {
-	// a civil time is ambiguous when it occurs twice (overlap): probe by shifting across the nearby offsets
-	t := time.Date(c.A.Y, time.Month(c.A.M), c.A.D, c.A.H, c.A.Mi, c.A.S, 0, time.Local)
-	for _, d := range []time.Duration{-3 * time.Hour, -2 * time.Hour, -time.Hour, -30 * time.Minute, 30 * time.Minute, time.Hour, 2 * time.Hour, 3 * time.Hour} {
-		u := t.Add(d)
-		if y, m, dd := u.Date(); y == c.A.Y && int(m) == c.A.M && dd == c.A.D {
-			if h, mi, s := u.Clock(); h == c.A.H && mi == c.A.Mi && s == c.A.S {
-				return false
+// otherOccurrence returns the other instant with the same civil fields as t in time.Local (clock set back: the
+// civil time occurs twice), if there is one.
+func otherOccurrence(t time.Time) (time.Time, bool) {
+	y, m, d := t.Date()
+	h, mi, s := t.Clock()
+	for _, delta := range []time.Duration{-3 * time.Hour, -2 * time.Hour, -90 * time.Minute, -time.Hour, -30 * time.Minute, 30 * time.Minute, time.Hour, 90 * time.Minute, 2 * time.Hour, 3 * time.Hour} {
+		u := t.Add(delta)
+		if yy, mm, dd := u.Date(); yy == y && mm == m && dd == d {
+			if hh, mmi, ss := u.Clock(); hh == h && mmi == mi && ss == s {
+				return u, true
 			}
 		}
 	}
-	return true
+	return time.Time{}, false
+}
+
+// disambiguated: does the JSON text (civil time + zone abbreviation) identify the instant? Yes when the civil time
+// occurs once, or when its two occurrences carry different abbreviations (EDT / EST).
+func disambiguated(t time.Time) bool {
+	other, twice := otherOccurrence(t)
+	if !twice {
+		return true
+	}
+	a, _ := t.Zone()
+	b, _ := other.Zone()
+	return a != b
 }
 
 func decideReject(c jCase) *rp.Fail {
@@ -478,6 +507,16 @@ func check(c jCase) *rp.Fail {
 	if c.Zone != "" && c.Zone != "UTC" {
 		ev.Class("zone/non-utc", 1)
 	}
+	if c.Type == "DateTime" && !c.Reject && c.A.Y != 0 {
+		zones.With(zones.Loc(orUTC(c.Zone)), func() {
+			if _, twice := otherOccurrence(time.Date(c.A.Y, time.Month(c.A.M), c.A.D, c.A.H, c.A.Mi, c.A.S, 0, time.Local)); twice {
+				ev.Class("datetime/civil-time-occurs-twice", 1)
+			}
+		})
+		if c.InUTC {
+			ev.Class("datetime/utc-value-in-other-zone", 1)
+		}
+	}
 	if ev.WantSample(class) {
 		ev.Sample(class, c)
 	}
@@ -537,6 +576,15 @@ func genCase(t *rapid.T) jCase {
 		}
 		if rapid.IntRange(0, 9).Draw(t, "zero") == 0 {
 			c.A = spec.CivilDT{}
+		}
+		c.InUTC = rapid.IntRange(0, 5).Draw(t, "in.utc") == 0
+		c.Later = rapid.Bool().Draw(t, "later")
+		// steer a share of the cases into the hour that occurs twice when clocks are set back
+		if trs := zones.Transitions(orUTC(c.Zone), 1970, 2040); len(trs) > 0 && rapid.IntRange(0, 3).Draw(t, "overlap") == 0 && c.A.Y != 0 {
+			tr := trs[rapid.IntRange(0, len(trs)-1).Draw(t, "transition")]
+			w := tr.In(loc).Add(time.Duration(rapid.IntRange(-3600, 3600).Draw(t, "offset.s")) * time.Second)
+			c.A = spec.CivilDT{Y: w.Year(), M: int(w.Month()), D: w.Day(), H: w.Hour(), Mi: w.Minute(), S: w.Second()}
+			c.InUTC = false
 		}
 	case "SystemTime":
 		c.A.H, c.A.Mi, c.A.S = rapid.IntRange(0, 23).Draw(t, "h"), rapid.IntRange(0, 59).Draw(t, "mi"), rapid.IntRange(0, 59).Draw(t, "s")
